@@ -129,6 +129,26 @@ def argleak_cases():
         (t, {'n': (T_.__star__()[T_['k']], len), 'm': 'b'}, {'n': 2, 'm': {}}),
         (t, (T_.__star__()[T_['k']], glom.Fill([T_])), None),     # checked for shape below
         ({'a': {'f': abs, 'v': -3}, 'b': {'v': 1}}, (T_.__star__()['f'](T_['v']), sum), 3),
+    ] + lazy_cases()
+
+
+def lazy_cases():
+    """a mode wrapper around a LAZY spec (Iter) that is not the last step of its chain: the wrapped spec's sub-specs run when a
+    later step consumes the iterator — still in the wrapper's mode, not in the mode of the chain that consumes it"""
+    import glom
+    from glom import Fill, Auto, Match, Iter, Pipe, T
+    rows = [{'a': 1}, {'a': 2}]
+    return [
+        (rows, (Fill(Iter('a')), list), ['a', 'a']),
+        (rows, Pipe(Fill(Iter((T['a'], 'x'))), list), [(1, 'x'), (2, 'x')]),
+        (rows, (Fill(Iter('a').map(T)), list), ['a', 'a']),
+        (['1', 2], (Match(Iter(int)), list), ('raise', 'TypeMatchError')),
+        ([1, 2], (Match(Iter(int)), list), [1, 2]),
+        (rows, Fill(Pipe(Auto(Iter('a')), Auto(list))), [1, 2]),
+        (rows, Fill((Auto(Iter('a')), T)), None),              # a tuple in Fill mode is a literal: checked for shape below
+        (rows, (Fill(Iter('a')), Auto(Iter(T * 2)), list), ['aa', 'aa']),
+        (rows, (Iter('a'), list), [1, 2]),
+        (rows, Fill(Iter('a').all()), ['a', 'a']),
     ]
 
 
@@ -139,10 +159,13 @@ def run_argleak(case):
         got = glom.glom(t, spec)
     except glom.GlomError as e:
         got = ('raise', type(e).__name__)
+    if want is None and isinstance(got, tuple) and len(got) == 2 and got[1] == t:
+        got, want = list(got[0]), [1, 2]                       # Fill((Auto(Iter('a')), T)): (iterator in auto mode, the target)
     if want is None:
         want = [[1, 2]]
     if got != want:
-        return {'problems': ['after a wildcard step that dropped a child whose argument failed: glom(%r, %s) gives %s, the steps evaluated '
+        return {'problems': ['a step run in another mode than its own (after a wildcard step that dropped a child whose argument failed / '
+                             'a lazy spec consumed after its mode wrapper returned): glom(%r, %s) gives %s, the steps evaluated '
                              'in their own mode give %r' % (t, _safe_repr(spec), _safe_repr(got), want)]}
     return {}
 
